@@ -256,8 +256,7 @@ def replay_cases(recs):
             continue
         B = np.asarray(bo[1])
         if B.shape[0] != n if B.ndim >= 1 else True:
-            if n == 1 and all(s[0] == "ok" for s in sc) and same(B, sc[0][1], mode):
-                continue        # a one-row batch may come back squeezed: same value
+            # (a one-row batch is a batch: no operation of the unchanged tree returns it squeezed)
             t.fail("C07|%s|batch-shape|N=%d" % (op, n), dict(case, shape=B.shape))
             continue
         for i, (s, c) in enumerate(zip(sc, arr)):
@@ -294,7 +293,8 @@ def run(chk):
         recs = [r for i, r in enumerate(recs) if len(r["arr"]) < 5 or i % 6 == chk.seed % 6]
     else:
         chk.exhaustive = True
-    core.merge(chk, core.pmap(replay_cases, recs))
+    tallies_ = core.pmap(replay_cases, recs)
+    core.merge(chk, tallies_)
     chk.distinct = set(k for k in chk.distinct if not all(c == "identity" for c in k[1]))
 
 
